@@ -56,7 +56,7 @@ M("r3c-revert-F19", ["C17"], "break",
 M("r3d-revert-F18", ["C17", "C15"], "break",
   [("yaep.c", "	  g->error_code = YAEP_NO_MEMORY;\n", "")], "yaep_parse/ret-const-1")
 M("r3a-throw-before-setjmp-in-parse", ["C17"], "break",
-  [("yaep.c", "  pl_init ();\n  tok_init_p = parse_init_p = FALSE;\n  if ((code = setjmp", "  pl_init ();\n  tok_init ();\n  tok_init_p = parse_init_p = FALSE;\n  if ((code = setjmp")],
+  [("yaep.c", "  pl_init ();\n  tok_init_p = parse_init_p = FALSE;\n", "  pl_init ();\n  tok_init ();\n  tok_init_p = parse_init_p = FALSE;\n")],
   "yaep_parse/propagates")
 M("r3a-throwing-call-in-handler", ["C17"], "break",
   [("yaep.c", "      pl_fin ();\n      if (parse_init_p)\n	yaep_parse_fin ();", "      pl_fin ();\n      pl_create ();\n      if (parse_init_p)\n	yaep_parse_fin ();")],
@@ -418,5 +418,14 @@ M("r15-compare-cores-only", ["C09", "C01", "C05", "C06"], "break",
   [("yaep.c", "      if (pl[pl_curr + 1 - dist] != pl[place + 1 - dist])", "      if (pl[pl_curr + 1 - dist]->core != pl[place + 1 - dist]->core)")], "compares-sets")
 M("t1-order-swapped", ["C02"], "break", [("yaep.c", "		    rule->order[el] = i;", "		    rule->order[i] = el;")], "order[el]=i")
 M("t1-nil-not-counted", ["C02"], "break",
-  [("yaep.c", "		    else\n		      rule->trans_len++;\n		  }\n		else if (rule->order[el] >= 0)", "		  }\n		else if (rule->order[el] >= 0)")], "trans_len")
+  [("yaep.c", "		else if (anode != NULL)\n		  /* Without abstract node `-' means the same as the\n		     empty translation (trans_len == 0): nil node.  */\n		  rule->trans_len++;\n", "")], "trans_len")
+M("t1-revert-F25", ["C02"], "break",
+  [("yaep.c", "		else if (anode != NULL)\n		  /* Without abstract node `-' means the same as the\n		     empty translation (trans_len == 0): nil node.  */\n		  rule->trans_len++;\n", "		else\n		  rule->trans_len++;\n")],
+  "nil-element-counted-only-with-abstract-node")
+M("r13-revert-F26", ["C04"], "break",
+  [("yaep.c", "  if (grammar->cost_p)\n    /* We can not build minimal tree", "  if (grammar->cost_p && *ambiguous_p)\n    /* We can not build minimal tree")], "costing-whenever-cost-flag")
+M("r13-costing-guard-reordered-benign", ["C04"], "benign",
+  [("yaep.c", "  if (grammar->cost_p)\n    /* We can not build minimal tree", "  if (grammar->cost_p != 0 && result != NULL && grammar->cost_p)\n    /* We can not build minimal tree")])
+M("r13-mark-decode-off-by-one", ["C04"], "break",
+  [("yaep.c", "	*cost = -node->val.anode.cost - 1;", "	*cost = -node->val.anode.cost;")], "mark-codec")
 M("t1-start-rule-no-translation", ["C02"], "break", [("yaep.c", "	  rule->order[0] = 0;\n	  rule->trans_len = 1;", "	  rule->trans_len = 1;")], "start-rule-order")
